@@ -74,12 +74,12 @@ fn query_of(prefix: &str, tag: usize, qlen: usize) -> Vec<u8> {
 }
 
 /// entry points used for "the next call" after the fault (clients)
-const FOLLOW: &str = "tTjJyYvVbmfF";
+const FOLLOW: &str = "tTjJyYvVbmfFSAgGH";
 fn is_follow(k: char) -> bool {
     FOLLOW.contains(k)
 }
 fn is_json(k: char) -> bool {
-    "jJyYb".contains(k)
+    "jJyYbGH".contains(k)
 }
 
 #[derive(Clone, Debug, Default)]
@@ -179,7 +179,7 @@ impl Wr {
                 _ => return None,
             }
         }
-        if ((is_json(kind) || kind == 'o') && w.size < 2) || (kind == 'm' && w.size != 0) || (w.zb && w.size != 0) || w.pv > 3 {
+        if ((is_json(kind) || kind == 'o') && w.size < 2) || ((kind == 'm' || kind == 'g') && w.size != 0) || (w.zb && w.size != 0) || w.pv > 3 {
             return None;
         }
         Some(w)
@@ -239,6 +239,9 @@ struct Exp {
     norm_ok: bool,
     /// an error response with this id may appear instead (servers: any request may be answered by an error)
     err_ok: bool,
+    /// only the frame's structure is expected (typed-slice calls: the body is a BEVE typed array whose exact bytes
+    /// — padding, alignment — are C01's and C08's business): consistent header, this query, any body
+    struct_ok: bool,
 }
 
 /// result of matching an expected frame against the bytes at a frame boundary
@@ -330,7 +333,35 @@ impl Exp {
         }
         Match { len: s.len().min(total), total, opaque: true }
     }
+    /// a consistent frame with this query, notify byte and (if known) id, `ec = 0`, any body of the declared length
+    fn struct_match(&self, s: &[u8]) -> Match {
+        let none = Match { len: 0, total: usize::MAX, opaque: true };
+        if s.len() < 48 {
+            // a prefix of a header: compatible as far as the fixed fields go
+            for i in 0..s.len() {
+                let ok = match i { 8 => s[i] == 0x07, 9 => s[i] == 0x15, 10 => s[i] == 1, 11 => s[i] == self.notify, 12..=15 => s[i] == 0, _ => true };
+                if !ok {
+                    return Match { len: i, total: usize::MAX, opaque: true };
+                }
+            }
+            return Match { len: s.len(), total: usize::MAX, opaque: true };
+        }
+        let h = RawHeader::parse(s).unwrap();
+        if !h.consistent() || h.ec != 0 || h.version != 1 || h.notify != self.notify || h.query_length as usize != self.query.len() || h.length > (1 << 30) || self.id.map_or(false, |i| i != h.id) {
+            return none;
+        }
+        let total = h.length as usize;
+        for i in 0..self.query.len().min(s.len() - 48) {
+            if s[48 + i] != self.query[i] {
+                return Match { len: 48 + i, total, opaque: true };
+            }
+        }
+        Match { len: s.len().min(total), total, opaque: true }
+    }
     fn matches(&self, s: &[u8]) -> Match {
+        if self.struct_ok {
+            return self.struct_match(s);
+        }
         let n = if self.norm_ok { Match { len: self.lcp(s), total: self.total(), opaque: self.body.is_some() || self.opaque } } else { Match { len: 0, total: usize::MAX, opaque: true } };
         if self.err_ok {
             let e = self.err_match(s);
@@ -347,10 +378,11 @@ fn expected_frames(ep: usize, ws: &[Wr]) -> Vec<Exp> {
     for (tag, w) in ws.iter().enumerate() {
         // (prefix, notify byte, id, default body format)
         let e = match (ep, w.kind) {
-            (0..=2, 'c') | (0..=2, 'T') | (0..=2, 'm') => Some(("/t/", 0u8, None, 0u16)),
+            (0..=2, 'c') | (0..=2, 'T') | (0..=2, 'm') | (0..=2, 'g') => Some(("/t/", 0u8, None, 0u16)),
+            (0..=1, 'S') | (0..=1, 'A') => Some(("/t/", 0, None, 1)),
             (0..=2, 'n') | (0..=2, 't') => Some(("/t/", 1, None, 0)),
             (0..=2, 'j') | (0..=2, 'y') => Some(("/t/", 1, None, 2)),
-            (0..=2, 'J') | (0..=2, 'Y') | (0..=2, 'b') => Some(("/t/", 0, None, 2)),
+            (0..=2, 'J') | (0..=2, 'Y') | (0..=2, 'b') | (0..=2, 'G') | (0..=2, 'H') => Some(("/t/", 0, None, 2)),
             (0..=2, 'v') => Some(("/t/", 1, None, 1)),
             (0..=2, 'V') => Some(("/t/", 0, None, 1)),
             (1, 'f') => Some(("/t/", w.nb.unwrap_or(1), Some(w.id.unwrap_or(5000 + tag as u64)), 0)),
@@ -366,7 +398,7 @@ fn expected_frames(ep: usize, ws: &[Wr]) -> Vec<Exp> {
             let body = if beve { Some(beve_body(tag as u64, w.size).1) } else { None };
             let size = body.as_ref().map_or(w.size, |b| b.len());
             // a request that cannot be dispatched (or whose handler fails) is answered by an error response only
-            let refused = server_req && (w.xr || w.ver.map_or(false, |x| x != 1) || w.qf.map_or(false, |f| f != 1) || w.hb == 1);
+            let refused = server_req && (w.xr || w.ver.map_or(false, |x| x != 1) || w.qf.map_or(false, |f| f != 1) || w.hb == 1 || (w.hb >= 10 && w.hb != 20));
             let bfmt = if server_req && w.kind == 'r' { w.bf.unwrap_or(0) } else if server_req { bfmt } else { w.bf.unwrap_or(bfmt) };
             v.push(Exp {
                 tag,
@@ -381,10 +413,11 @@ fn expected_frames(ep: usize, ws: &[Wr]) -> Vec<Exp> {
                 opaque: notify > 1,
                 norm_ok: !refused,
                 err_ok: server_req,
+                struct_ok: w.kind == 'S' || w.kind == 'A',
             });
             if ep == 5 && w.kind == 'r' && w.hb == 6 && !refused {
                 // the handler pushes this notify to the calling peer before it answers
-                v.push(Exp { tag: tag + 10000, kind: 'p', qfmt: 1, bfmt: 0, query: query_of("/p/", tag + 10000, 0), size: 64, notify: 1, id: Some(0), body: None, opaque: false, norm_ok: true, err_ok: false });
+                v.push(Exp { tag: tag + 10000, kind: 'p', qfmt: 1, bfmt: 0, query: query_of("/p/", tag + 10000, 0), size: 64, notify: 1, id: Some(0), body: None, opaque: false, norm_ok: true, err_ok: false, struct_ok: false });
             }
         }
     }
@@ -918,6 +951,8 @@ fn run_blocking_client(sc: &Script) -> Result<Capture, String> {
             let s = json_string(tag as u64, w.size);
             let v = serde_json::Value::String(s.clone());
             return match (w.kind, no_to) {
+                ('G', _) => client.registry_write_json(&path, &v).map(|_| ()),
+                ('H', _) => client.registry_call_json(&path, &v).map(|_| ()),
                 ('j', _) => client.notify_json(&path, &v),
                 ('J', false) => client.call_json_with_timeout(&path, &v, to).map(|_| ()),
                 ('J', true) => client.call_json(&path, &v).map(|_| ()),
@@ -934,10 +969,21 @@ fn run_blocking_client(sc: &Script) -> Result<Capture, String> {
                 (_, true) => client.call_typed_beve::<_, String, String>(&path, &s).map(|_| ()),
             };
         }
+        if w.kind == 'S' || w.kind == 'A' {
+            let data: Vec<f64> = (0..w.size / 8).map(|i| (tag * 1000 + i) as f64).collect();
+            return match (w.kind, no_to) {
+                ('S', false) => client.call_typed_slice_with_timeout::<_, f64, f64>(&path, &data, to).map(|_| ()),
+                ('S', true) => client.call_typed_slice::<_, f64, f64>(&path, &data).map(|_| ()),
+                (_, false) => client.call_typed_slice_aligned_with_timeout::<_, f64, f64>(&path, &data, to).map(|_| ()),
+                (_, true) => client.call_typed_slice_aligned::<_, f64, f64>(&path, &data).map(|_| ()),
+            };
+        }
         let body = pat(tag as u64, w.size);
         let b: Option<&[u8]> = if w.zb { None } else { Some(&body) };
         let bf = w.bf.unwrap_or(0);
         match (w.kind, no_to) {
+            ('g', false) => client.registry_read_with_timeout(&path, to).map(|_| ()),
+            ('g', true) => client.registry_read(&path).map(|_| ()),
             ('c', false) | ('T', false) => client.call_with_formats_and_timeout(&path, qf, b, bf, to).map(|_| ()),
             ('c', true) | ('T', true) => client.call_with_formats(&path, qf, b, bf).map(|_| ()),
             ('m', false) => client.call_message_with_timeout(&path, to).map(|_| ()),
@@ -1001,8 +1047,9 @@ fn run_blocking_client(sc: &Script) -> Result<Capture, String> {
             });
         }
         // the twin without a timeout returns only when the connection ends: give its request time to go out
-        let limit = if sc.ws[tag].tv == 1 { Duration::from_millis(150) } else { WATCHDOG };
-        if !wait_until(|| done2.load(SeqCst), limit) && sc.ws[tag].tv != 1 {
+        let detached = sc.ws[tag].tv == 1 || matches!(sc.ws[tag].kind, 'G' | 'H');
+        let limit = if detached { Duration::from_millis(150) } else { WATCHDOG };
+        if !wait_until(|| done2.load(SeqCst), limit) && !detached {
             notes.push("writer-watchdog");
         }
     }
@@ -1035,6 +1082,10 @@ impl AnyClient {
             let s = json_string(tag as u64, w.size);
             let v = serde_json::Value::String(s.clone());
             return match (self, w.kind, no_to) {
+                (AnyClient::A(c), 'G', _) => c.registry_write_json(&path, &v).await.map(|_| ()),
+                (AnyClient::A(c), 'H', _) => c.registry_call_json(&path, &v).await.map(|_| ()),
+                (AnyClient::W(c), 'G', _) => c.registry_write_json(&path, &v).await.map(|_| ()),
+                (AnyClient::W(c), 'H', _) => c.registry_call_json(&path, &v).await.map(|_| ()),
                 (AnyClient::A(c), 'j', _) => c.notify_json(&path, &v).await,
                 (AnyClient::A(c), 'J', false) => c.call_json_with_timeout(&path, &v, to).await.map(|_| ()),
                 (AnyClient::A(c), 'J', true) => c.call_json(&path, &v).await.map(|_| ()),
@@ -1059,6 +1110,22 @@ impl AnyClient {
                 (AnyClient::W(c), _, false) => c.call_typed_beve_with_timeout::<_, String, String>(&path, &s, to).await.map(|_| ()),
                 (AnyClient::W(c), _, true) => c.call_typed_beve::<_, String, String>(&path, &s).await.map(|_| ()),
             };
+        }
+        if let (AnyClient::A(c), 'S' | 'A') = (self, w.kind) {
+            let data: Vec<f64> = (0..w.size / 8).map(|i| (tag * 1000 + i) as f64).collect();
+            return match (w.kind, no_to) {
+                ('S', false) => c.call_typed_slice_with_timeout::<_, f64, f64>(&path, &data, to).await.map(|_| ()),
+                ('S', true) => c.call_typed_slice::<_, f64, f64>(&path, &data).await.map(|_| ()),
+                (_, false) => c.call_typed_slice_aligned_with_timeout::<_, f64, f64>(&path, &data, to).await.map(|_| ()),
+                (_, true) => c.call_typed_slice_aligned::<_, f64, f64>(&path, &data).await.map(|_| ()),
+            };
+        }
+        match (self, w.kind, no_to) {
+            (AnyClient::A(c), 'g', false) => return c.registry_read_with_timeout(&path, to).await.map(|_| ()),
+            (AnyClient::A(c), 'g', true) => return c.registry_read(&path).await.map(|_| ()),
+            (AnyClient::W(c), 'g', false) => return c.registry_read_with_timeout(&path, to).await.map(|_| ()),
+            (AnyClient::W(c), 'g', true) => return c.registry_read(&path).await.map(|_| ()),
+            _ => {}
         }
         let body = pat(tag as u64, w.size);
         let bf = w.bf.unwrap_or(0);
@@ -1222,7 +1289,7 @@ fn run_async_client(sc: &Script) -> Result<Capture, String> {
                 }
                 batch_sent = true;
                 tokio::time::timeout(WATCHDOG, client.batch(batch.clone(), ct)).await.is_ok()
-            } else if sc.ws[tag].tv == 1 {
+            } else if sc.ws[tag].tv == 1 || matches!(sc.ws[tag].kind, 'G' | 'H') {
                 // the twin without a timeout returns only when the connection ends: run it detached
                 let (c2, w2) = (client.clone(), sc.ws[tag].clone());
                 let h = tokio::spawn(async move {
@@ -1277,6 +1344,24 @@ fn misbehave(hb: u8) -> Result<(), RepeError> {
             std::thread::sleep(Duration::from_millis(30));
             Ok(())
         }
+        // 10…: every error a handler can hand back — each `ErrorCode`, I/O errors of the kinds that mean "end",
+        // "retry" or "gone" elsewhere, and the other `RepeError` variants
+        10..=20 => {
+            use repe::ErrorCode as E;
+            let codes = [E::VersionMismatch, E::InvalidHeader, E::InvalidQuery, E::InvalidBody, E::ParseError, E::MethodNotFound, E::Timeout, E::ResourceExhausted, E::InternalError, E::ApplicationErrorBase, E::Ok];
+            Err(RepeError::ServerError { code: codes[(hb - 10) as usize], message: format!("handler error {}", hb) })
+        }
+        21..=28 => {
+            use std::io::ErrorKind as K;
+            let kinds = [K::UnexpectedEof, K::BrokenPipe, K::Interrupted, K::WouldBlock, K::TimedOut, K::ConnectionReset, K::ConnectionAborted, K::Other];
+            Err(RepeError::Io(std::io::Error::new(kinds[(hb - 21) as usize], "handler i/o error")))
+        }
+        29 => Err(RepeError::VersionMismatch(9)),
+        30 => Err(RepeError::InvalidSpec(7)),
+        31 => Err(RepeError::LengthMismatch { expected: 1, got: 2 }),
+        32 => Err(RepeError::BufferTooSmall { need: 9, have: 1 }),
+        33 => Err(RepeError::UnknownEnumValue(77)),
+        34 => Err(RepeError::Json(serde_json::from_str::<serde_json::Value>("{").unwrap_err())),
         _ => Ok(()),
     }
 }
@@ -1530,12 +1615,22 @@ fn run_tcp_server(sc: &Script) -> Result<Capture, String> {
     let _sent = send_requests(sock.try_clone().unwrap(), requests(sc), true, sc.o("rq", 0), sc.o("rto", 0) + 60, fnv(sc.idx.as_bytes()));
     wait_until(|| g.at_stall(sc.stall_at), WATCHDOG);
     std::thread::sleep(Duration::from_millis(sc.stall_ms));
-    g.open();
-    if !wait_until(|| g.eof.load(SeqCst), WATCHDOG) {
-        notes.push("eof-watchdog");
+    if sc.o("rst", 0) == 1 {
+        // the peer disappears with a reset while the server is (possibly) blocked writing
+        let lg = libc::linger { l_onoff: 1, l_linger: 0 };
+        unsafe {
+            libc::setsockopt(sock.as_raw_fd(), libc::SOL_SOCKET, libc::SO_LINGER, &lg as *const _ as *const libc::c_void, std::mem::size_of::<libc::linger>() as libc::socklen_t);
+        }
+        g.stop.store(true, SeqCst);
+    } else {
+        g.open();
+        if !wait_until(|| g.eof.load(SeqCst), WATCHDOG) {
+            notes.push("eof-watchdog");
+        }
+        g.stop.store(true, SeqCst);
     }
-    g.stop.store(true, SeqCst);
     let rep = rd.join().map_err(|_| "reader panicked".to_string())?;
+    drop(sock);
     let second = if sc.o("conns", 1) == 2 { second_connection(addr, false) } else { None };
     if let Some(r) = rt {
         r.shutdown_background();
@@ -1564,7 +1659,8 @@ fn run_ws_server(sc: &Script) -> Result<Capture, String> {
             }
         });
     }
-    let via_shared = sc.o("via", 0) == 1;
+    let via = sc.o("via", 0);
+    let via_shared = via >= 1;
     let (sd_tx, sd_rx) = tokio::sync::oneshot::channel::<()>();
     let drain = match sc.fault {
         Fault::Drain(t) => Some(t),
@@ -1586,8 +1682,29 @@ fn run_ws_server(sc: &Script) -> Result<Capture, String> {
                         let Ok((stream, _)) = acc else { break };
                         let (shared, token) = (shared.clone(), token.clone());
                         tokio::spawn(async move {
-                            if let Ok(ws) = shared.accept(stream, "/ws").await {
-                                let _ = shared.serve_connection_with_cancel(ws, &token).await;
+                            match via {
+                                // the static accept (explicit limits) + plain `serve_connection`
+                                2 => {
+                                    if let Ok(ws) = WebSocketServer::accept_with_limits(stream, "/ws", shared.limits()).await {
+                                        let _ = shared.serve_connection(ws).await;
+                                    }
+                                }
+                                // the handshake-capturing twins
+                                3 => {
+                                    if let Ok((ws, hs)) = shared.accept_with_handshake(stream, "/ws").await {
+                                        let _ = shared.serve_connection_with_cancel_and_handshake(ws, hs, &token).await;
+                                    }
+                                }
+                                4 => {
+                                    if let Ok((ws, hs)) = WebSocketServer::accept_with_handshake_and_limits(stream, "/ws", shared.limits()).await {
+                                        let _ = shared.serve_connection_with_handshake(ws, hs).await;
+                                    }
+                                }
+                                _ => {
+                                    if let Ok(ws) = shared.accept(stream, "/ws").await {
+                                        let _ = shared.serve_connection_with_cancel(ws, &token).await;
+                                    }
+                                }
                             }
                         });
                     }
@@ -2047,15 +2164,25 @@ fn spice(r: &mut Rng, sc: &mut Script) {
                 set(r, "nd", &[0], 1, 4);
             }
             set(r, "conns", &[2], 1, 2);
+            set(r, "rst", &[1], 1, 6);
         }
         5 => {
             set(r, "cap", &[1, 2, 256], 1, 2);
-            set(r, "via", &[1], 1, 3);
+            set(r, "via", &[1, 2, 3, 4], 1, 2);
             set(r, "conns", &[2], 1, 2);
             set(r, "off", &[0, 1, 2], 1, 3);
             set(r, "lim", &[48, 49, 64, 100, 128, 165, 170, 180, 256, 9000, 70000, 1 << 20], 1, 4);
         }
         _ => {}
+    }
+}
+
+/// which follow-up entry points exist on which client (forward: async only; typed slices: not on the WebSocket client)
+fn follow_for(ep: usize, c: char) -> bool {
+    match c {
+        'f' | 'F' => ep == 1,
+        'S' | 'A' => ep <= 1,
+        _ => true,
     }
 }
 
@@ -2080,10 +2207,10 @@ fn gen_scripts(r: &mut Rng, thorough: bool) -> Vec<Script> {
             let n = s.ws.len();
             if n < 56 {
                 // "the next calls", through different entry points (rotated so that each comes first somewhere)
-                let kinds: Vec<char> = FOLLOW.chars().filter(|c| s.ep == 1 || (*c != 'f' && *c != 'F')).collect();
+                let kinds: Vec<char> = FOLLOW.chars().filter(|c| follow_for(s.ep, *c)).collect();
                 for j in 0..4 {
                     let kd = kinds[(k + j * 3) % kinds.len()];
-                    let size = if kd == 'm' { 0 } else if j % 2 == 0 { 300 } else { 70000 };
+                    let size = if kd == 'm' || kd == 'g' { 0 } else if j % 2 == 0 { 304 } else { 70000 };
                     s.ws.push(Wr { kind: kd, size, qlen: 0, ..Default::default() });
                 }
             }
@@ -2134,14 +2261,14 @@ fn gen_scripts(r: &mut Rng, thorough: bool) -> Vec<Script> {
         // 8. clients: one frame far larger than the buffers is certainly in progress when the fault hits;
         //    the next frame is offered through each emission entry point in turn (first in line), then the others
         if ep <= 2 {
-            let all: Vec<char> = FOLLOW.chars().filter(|c| ep == 1 || (*c != 'f' && *c != 'F')).collect();
+            let all: Vec<char> = FOLLOW.chars().filter(|c| follow_for(ep, *c)).collect();
             let firsts: Vec<char> = if ep == 2 && !thorough { vec!['t', 'J', 'b'] } else { all.clone() };
             for (j, kd) in firsts.iter().enumerate() {
                 let mut ws = vec![Wr { kind: 'n', size: 300000 + 1000 * j, qlen: 0, ..Default::default() }];
                 let mut order = vec![*kd];
                 order.extend(all.iter().filter(|c| *c != kd).cycle().skip(j).take(3));
                 for (x, c) in order.iter().enumerate() {
-                    let size = if *c == 'm' { 0 } else if x % 2 == 0 { 200 + 13 * j } else { 20000 };
+                    let size = if *c == 'm' || *c == 'g' { 0 } else if x % 2 == 0 { 200 + 16 * j } else { 20000 };
                     ws.push(Wr { kind: *c, size, qlen: if x == 1 { 300 } else { 0 }, ..Default::default() });
                 }
                 let (fault, stall_ms) = if ep == 0 { (Fault::WTimeout(30), 100) } else { (Fault::Cancel(-1), 40) };
@@ -2311,7 +2438,9 @@ fn gen_scripts(r: &mut Rng, thorough: bool) -> Vec<Script> {
                 for ws in lists {
                     let mut opt = o1("rq", *r.pick(&[0u64, 1, 2]));
                     if ep == 5 { opt.insert("cap".to_string(), *r.pick(&[1u64, 2, 256])); }
-                    push(&mut v, Script { idx: String::new(), ep, buf: 16384, rt: 2, chunk: 65536, stall_at: 0, stall_ms: 20, fault: Fault::None, opt, ws });
+                    // (the refusal paths under a write timeout too: "nothing after a torn frame" holds there as well)
+                    let fault = if (ep == 3 || ep == 4) && r.chance(1, 2) { Fault::WTimeout(30) } else { Fault::None };
+                    push(&mut v, Script { idx: String::new(), ep, buf: if fault == Fault::None { 16384 } else { small }, rt: 2, chunk: 65536, stall_at: 0, stall_ms: if fault == Fault::None { 20 } else { 90 }, fault, opt, ws });
                 }
                 // (i) requests arriving in pieces (cut inside the header, at 48, inside query and body), long paths;
                 //     and a pause longer than the read timeout in the middle of a request
@@ -2410,8 +2539,52 @@ fn gen_scripts(r: &mut Rng, thorough: bool) -> Vec<Script> {
                 }
             }
         }
+        // ---- third coverage audit
+        {
+            let w0 = |kind: char, size: usize| Wr { kind, size, ..Default::default() };
+            if ep >= 3 {
+                // (p) every error a handler can hand back, each followed by an ordinary request; then (tcp) the peer resets
+                let mut ws: Vec<Wr> = Vec::new();
+                for hb in 10u8..=34 {
+                    ws.push(Wr { hb, ..w0(if hb % 5 == 0 { 'o' } else { 'r' }, 50 + hb as usize) });
+                    if hb % 6 == 0 {
+                        ws.push(w0('r', 9000));
+                    }
+                }
+                ws.push(w0('r', 300000));
+                let mut opt = std::collections::BTreeMap::new();
+                if ep <= 4 {
+                    opt.insert("rst".to_string(), 1u64);
+                }
+                if ep == 5 {
+                    opt.insert("via".to_string(), 2 + r.below(3));
+                }
+                push(&mut v, Script { idx: String::new(), ep, buf: small, rt: 2, chunk: 65536, stall_at: 40000, stall_ms: 60, fault: Fault::None, opt, ws });
+            }
+            if ep <= 2 {
+                // (q) the fault while MANY calls are pending (16 registered, in no particular order): the largest one is
+                //     abandoned / times out, the others carry on; then the reader fails too
+                //     (one worker thread and the large call spawned first, so that it holds the writer lock when the peer stalls
+                //     and the other fifteen are registered and queued behind it)
+                let mut ws: Vec<Wr> = (0..16).map(|j| w0('c', if j == 0 { 400000 } else { 100 + 977 * ((j * 7) % 16) })).collect();
+                ws.extend([w0('t', 200), w0('J', 500)]);
+                let fault = if ep == 0 { Fault::WTimeout(30) } else { Fault::Cancel(0) };
+                let mut opt = std::collections::BTreeMap::new();
+                opt.insert("pr".to_string(), 1u64);
+                opt.insert("ct".to_string(), 200);
+                push(&mut v, Script { idx: String::new(), ep, buf: small, rt: 1, chunk: 65536, stall_at: 0, stall_ms: if ep == 0 { 100 } else { 40 }, fault, opt, ws });
+            }
+            if ep == 5 {
+                // (q) a drain deadline with dozens of messages queued behind a stalled writer
+                let mut ws: Vec<Wr> = (0..40).map(|j| w0(if j % 4 == 0 { 'B' } else { 'p' }, 100 + 531 * ((j * 11) % 40))).collect();
+                ws.extend([w0('r', 100000), w0('o', 5000)]);
+                let mut opt = std::collections::BTreeMap::new();
+                opt.insert("cap".to_string(), 256u64);
+                push(&mut v, Script { idx: String::new(), ep, buf: small, rt: 2, chunk: 65536, stall_at: 2000, stall_ms: 150, fault: Fault::Drain(40), opt, ws });
+            }
+        }
         // random scripts
-        let n_random = if thorough { 60 } else { 2 };
+        let n_random = if thorough { 60 } else { 1 };
         for _ in 0..n_random {
             let n = 1 + r.below(32) as usize;
             let budget: usize = if thorough { 6 << 20 } else { 2 << 20 };
@@ -2447,6 +2620,114 @@ fn gen_scripts(r: &mut Rng, thorough: bool) -> Vec<Script> {
     v
 }
 
+/// Public entry points of the anchored files that can put bytes on a connection and are DRIVEN by this family.
+const DRIVEN: &[&str] = &[
+    // the three clients
+    "connect", "connect_with_limits", "set_write_timeout", "limits", "call_json", "call_json_with_timeout", "call_typed_json", "call_typed_json_with_timeout",
+    "call_typed_beve", "call_typed_beve_with_timeout", "call_typed_slice", "call_typed_slice_with_timeout", "call_typed_slice_aligned",
+    "call_typed_slice_aligned_with_timeout", "call_message", "call_message_with_timeout", "call_with_formats", "call_with_formats_and_timeout",
+    "registry_read", "registry_read_with_timeout", "registry_write_json", "registry_call_json", "notify_json", "notify_typed_json", "notify_typed_beve",
+    "notify_with_formats", "batch_json", "batch_json_with_timeout", "forward_message", "forward_message_with_timeout",
+    // servers
+    "new", "read_timeout", "write_timeout", "tcp_nodelay", "serve", "with_erased_handler", "with_json_blocking", "with_outbound_capacity", "with_limits",
+    "with_offreader_limit", "with_peer_registry", "on_peer_connect", "serve_listener_with_shutdown", "serve_listener_with_graceful_drain", "into_shared",
+    "accept", "accept_with_limits", "accept_with_handshake", "accept_with_handshake_and_limits", "serve_connection", "serve_connection_with_handshake",
+    "serve_connection_with_cancel", "serve_connection_with_cancel_and_handshake", "proxy_connection_with_limits", "derive_accept_key", "cancel",
+];
+/// … and those that are not, with the reason.
+const NOT_DRIVEN: &[(&str, &str)] = &[
+    ("registry_read_typed", "registry_read + decode of the response"), ("registry_read_typed_with_timeout", "registry_read_with_timeout + decode"),
+    ("subscribe_notifies", "receive side"), ("unsubscribe_notifies", "receive side"),
+    ("listen", "binds a listener, writes nothing"), ("stop", "flag read between requests; nothing is written"),
+    ("serve_with_shutdown", "binds by address, then serve_listener_with_shutdown"), ("serve_listener", "serve_listener_with_shutdown with a pending future"),
+    ("serve_with_graceful_drain", "binds by address, then serve_listener_with_graceful_drain"), ("proxy_connection", "proxy_connection_with_limits with the default limits"),
+    ("adopt_upgraded", "wraps an already upgraded stream (no bytes); the connection is then served by serve_connection*"),
+    ("adopt_upgraded_partially_read", "as adopt_upgraded"), ("is_websocket_upgrade", "peeks at the request head"), ("on_peer_connect_with_handshake", "hook registration, same call site as on_peer_connect"),
+    ("on_peer_disconnect", "hook runs after the connection ended"), ("on_error", "hook; nothing it does reaches the wire"),
+    ("is_cancelled", "observer"), ("cancelled", "observer"), ("error_code", "accessor"), ("path", "accessor"), ("query", "accessor"), ("header", "accessor"), ("headers", "accessor"),
+    ("from_http_request", "constructor of HandshakeContext"),
+    // src/server.rs: router construction and dispatch helpers (C03/C07), no connection I/O
+    ("run", "middleware chain (C07)"), ("ctx", "accessor"), ("peer", "accessor"), ("json", "response constructor"), ("beve", "response constructor"), ("utf8", "response constructor"),
+    ("raw_binary", "response constructor"), ("poisoned", "error constructor"), ("other", "error constructor"), ("register_middleware", "router (C07)"), ("with", "router (C07)"),
+    ("with_json", "router: same JsonHandler as with_json_blocking"), ("with_middleware", "router (C07)"), ("with_typed", "router (C03)"), ("with_typed_slice", "router (C08)"),
+    ("with_typed_slice_ref", "router (C08)"), ("with_json_ctx", "router (C03)"), ("with_typed_ctx", "router (C03)"), ("with_json_ctx_blocking", "router (C16)"),
+    ("with_typed_blocking", "router (C16)"), ("with_typed_ctx_blocking", "router (C16)"), ("with_handler", "router (C03)"), ("with_struct_shared", "router (C07)"),
+    ("register_struct_shared", "router (C07)"), ("with_struct", "router (C07)"), ("register_struct", "router (C07)"), ("with_registry", "router (C14)"),
+    ("register_registry", "router (C14)"), ("get", "router lookup (C07)"),
+];
+
+/// `pub fn` / `pub async fn` names of the anchored files of the tree under test that this family neither drives nor
+/// lists as deliberately not driven: a new twin shows up here (stats.json `not_driven`, stderr) instead of silently.
+fn entry_point_audit(out: &mut Out) {
+    let repo = std::env::var("VERIF_REPO").unwrap_or_else(|_| "/repo".into());
+    let mut missing = Vec::new();
+    let mut seen = 0u64;
+    for file in ["client.rs", "async_client.rs", "websocket_client.rs", "server.rs", "async_server.rs", "websocket_server.rs"] {
+        let text = std::fs::read_to_string(std::path::Path::new(&repo).join("src").join(file)).unwrap_or_default();
+        let text = text.split("#[cfg(test)]").next().unwrap_or("").to_string();
+        for line in text.lines() {
+            let t = line.trim_start();
+            for pre in ["pub async fn ", "pub fn "] {
+                if let Some(rest) = t.strip_prefix(pre) {
+                    let name: String = rest.chars().take_while(|c| c.is_alphanumeric() || *c == '_').collect();
+                    seen += 1;
+                    if !DRIVEN.contains(&name.as_str()) && !NOT_DRIVEN.iter().any(|(n, _)| *n == name) {
+                        let item = format!("{}::{}", file, name);
+                        if !missing.contains(&item) {
+                            missing.push(item);
+                        }
+                    }
+                }
+            }
+        }
+    }
+    out.add("entry-points.seen", seen);
+    out.add("entry-points.not-driven-unknown", missing.len() as u64);
+    if !missing.is_empty() {
+        eprintln!("[torn] public entry points this family neither drives nor knows: {:?}", missing);
+    }
+    out.extra.insert("not_driven".into(), serde_json::json!(missing));
+    out.extra.insert("not_driven_because".into(), serde_json::json!(NOT_DRIVEN.iter().map(|(n, w)| format!("{}: {}", n, w)).collect::<Vec<_>>()));
+}
+
+/// Scripts whose stall is longer than any plausible internal timer; they run concurrently, on their own threads.
+fn long_stall_scripts(r: &mut Rng, thorough: bool) -> Vec<Script> {
+    let w0 = |kind: char, size: usize| Wr { kind, size, ..Default::default() };
+    let mut v = Vec::new();
+    let stalls: Vec<u64> = if thorough { vec![300, 600, 1100, 2500, 5500, 11000] } else { vec![*r.pick(&[300u64, 600]), 1100] };
+    for ep in 0..7usize {
+        for (j, st) in stalls.iter().enumerate() {
+            let (a, b) = if ep <= 2 { ('n', 'c') } else { ('r', 'r') };
+            let mut ws = vec![w0(a, 3000), w0(b, 200000 + 1000 * j), w0(a, 9000), w0(b, 100), w0(a, 70000)];
+            let fault = match ep {
+                // a timeout that fires early in the stall, or one that fires only just before it ends (the connection
+                // is then old: more than 0.2 … 10.9 s)
+                0 | 3 | 4 => if j % 2 == 0 { Fault::WTimeout(100) } else { Fault::WTimeout(st.saturating_sub(100).max(50)) },
+                1 | 2 => Fault::Cancel(-1),
+                5 => if j % 2 == 0 { Fault::Drain(50) } else { Fault::None },
+                _ => Fault::None,
+            };
+            if ep <= 2 {
+                ws.push(w0('t', 300));
+                ws.push(w0('J', 9000));
+            }
+            let mut opt = std::collections::BTreeMap::new();
+            if ep == 3 || ep == 4 {
+                opt.insert("rq".to_string(), 2);
+                if j % 2 == 1 {
+                    opt.insert("rto".to_string(), *st + 2000);
+                }
+            }
+            v.push(Script { idx: format!("L{}", v.len()), ep, buf: 4096, rt: 2, chunk: 65536, stall_at: 5000, stall_ms: *st, fault, opt, ws });
+        }
+    }
+    v
+}
+
+fn watchdogs(out: &Out) -> u64 {
+    out.counters.iter().filter(|(k, _)| k.starts_with("note.") && k.contains("watchdog")).map(|(_, v)| *v).sum()
+}
+
 fn main() {
     let args = Args::parse();
     quiet_panics();
@@ -2454,10 +2735,38 @@ fn main() {
     let mut rng = Rng::new(args.seed);
     out.rule = "scripts = endpoint x buffers x writers (kind,size,query length) x stall point/duration x fault (write timeout | cancel in-progress calls | graceful-drain deadline | none); sizes biased to 0,1,47/48, 8 KiB BufWriter edge (8143-8145 = 8192-48-1.., 8192/8193), 64 KiB, 128 KiB tungstenite buffer edge, 1 MiB(+1), multi-MiB; query lengths 0 (short path) .. 1 MiB (6 MiB thorough); after the fault the clients' next frames go through every emission entry point in turn (notify_*/call_*/batch_json/call_message/forward_message); 10 fixed shapes + random ones per endpoint. Distinct by script line; non-trivial = the captured stream holds at least two whole frames or a torn tail".into();
     out.flush_each = true;
-    let lines: Vec<String> = match args.replay_ops() {
+    entry_point_audit(&mut out);
+    let replay = args.replay_ops();
+    let is_replay = replay.is_some();
+    let mut lines: Vec<String> = match replay {
         Some(ops) => ops.into_iter().filter(|l| l.starts_with("torn ")).collect(),
         None => gen_scripts(&mut rng, args.thorough()).iter().map(|s| s.line()).collect(),
     };
+    // the shapes with a fault first: a broken tree then reaches its 12 failures sooner
+    lines.sort_by_key(|l| l.contains(" fault none "));
+    // long stalls run concurrently with everything else
+    let bg: Vec<std::thread::JoinHandle<(String, String, bool, Vec<serde_json::Value>, std::collections::BTreeMap<String, u64>)>> = if is_replay {
+        Vec::new()
+    } else {
+        long_stall_scripts(&mut rng, args.thorough())
+            .into_iter()
+            .enumerate()
+            .map(|(i, sc)| {
+                let dir = args.out.join(format!("bg{}", i));
+                std::thread::spawn(move || {
+                    let _ = std::fs::create_dir_all(&dir);
+                    let mut o = Out::new(&dir);
+                    let (op, obs, nt) = exec(&mut o, &sc.line());
+                    let counters = o.counters.clone();
+                    o.finish();
+                    let fails = std::fs::read_to_string(dir.join("oracle.txt")).unwrap_or_default().lines().filter_map(|l| serde_json::from_str(l).ok()).collect();
+                    let _ = std::fs::remove_dir_all(&dir);
+                    (op, obs, nt, fails, counters)
+                })
+            })
+            .collect()
+    };
+    let mut stopped = false;
     for line in lines {
         out.begin(&line);
         let t0 = Instant::now();
@@ -2471,6 +2780,29 @@ fn main() {
             out.count("stopped-after-12-oracle-failures");
             break;
         }
+        if watchdogs(&out) >= 3 {
+            // calls into the code under test keep running into the 15 s watchdog: this tree hangs; C05 promises no
+            // result, so this is not an oracle failure, but the run cannot go on like this
+            out.count("stopped-after-3-watchdogs");
+            stopped = true;
+            break;
+        }
+    }
+    for h in bg {
+        if let Ok((op, obs, nt, fails, counters)) = h.join() {
+            out.case(&op, &obs, nt);
+            for (k, v) in counters {
+                out.add(&k, v);
+            }
+            for f in fails {
+                let ops: Vec<String> = f["ops"].as_array().map(|a| a.iter().filter_map(|x| x.as_str().map(String::from)).collect()).unwrap_or_default();
+                out.oracle_fail(f["sig"].as_str().unwrap_or("?"), f["detail"].as_str().unwrap_or(""), &ops);
+            }
+        }
     }
     out.finish();
+    if stopped {
+        eprintln!("[torn] stopped: three scripts ran into the watchdog");
+        std::process::exit(3);
+    }
 }
